@@ -52,6 +52,7 @@ type frame struct {
 	params     map[string]Val
 	stack      []string
 	curSSAArgs []ssa.Value
+	curSite    ssa.Instruction // the call instruction being dispatched (guards see the locals at this point)
 }
 
 // topCtx is shared by all frames of one top-level function verification.
@@ -975,6 +976,7 @@ func (fr *frame) step(st *PState, ins ssa.Instruction) {
 	case *ssa.ChangeType:
 		v := fr.val(st, ins.X)
 		if t, ok := v.(T); ok {
+			t = fr.ex.recast(t, ins.X.Type(), ins.Type())
 			t.Go = ins.Type()
 			v = t
 		}
@@ -1341,5 +1343,25 @@ func (b *ByteArrVal) term(st *PState) T {
 	r := st.Fresh("bytearr", SBytes)
 	st.Assume(Not(Eq(r, bnilT)))
 	st.Assume(Eq(App(SInt, "blen", r), IntLit(int64(len(b.Elems)))))
+	return r
+}
+
+// recast converts a struct value between two named struct types with identical underlying type (a Go conversion
+// T2(x)): each named struct type is its own datatype, so the value is rebuilt field by field.
+func (ex *Exec) recast(t T, from, to types.Type) T {
+	fs, ts := ex.Sorts.StructInfoOf(from), ex.Sorts.StructInfoOf(to)
+	if fs == nil || ts == nil || fs.Sort == ts.Sort || len(fs.Fields) != len(ts.Fields) {
+		return t
+	}
+	args := make([]T, len(ts.Fields))
+	for i := range ts.Fields {
+		f := ex.Sorts.Field(t, fs, i)
+		if fs.Fields[i].Sort != ts.Fields[i].Sort {
+			f = ex.recast(f, fs.Fields[i].Go, ts.Fields[i].Go)
+		}
+		args[i] = f
+	}
+	r := App(ts.Sort, ts.Ctor, args...)
+	r.Go = to
 	return r
 }
